@@ -20,11 +20,18 @@
 (*   requests arrive the connection is closed; after a request that ends persistence  *)
 (*   or whose end cannot be determined no later request is answered and the           *)
 (*   connection is closed; no backend ever sees the request embedded in a body.       *)
+(* Graceful shutdown (bfe_server.ShutdownHandler closes CloseNotifyCh; response.WriteHeader):   *)
+(*   a case may run while the server is in graceful-shutdown state (sd = TRUE).  Then *)
+(*   (RFC 7230 6.6) the first response ends persistence: an HTTP/1.1 response produced *)
+(*   by the backend announces it with "Connection: close", it is complete and in sync, *)
+(*   nothing after it is answered and the connection is closed.                        *)
 (* Layer M: the conn.serve loop: ReadReq, Handle, WriteResp (Drain <= 256 KiB), Close.*)
 EXTENDS Integers, Sequences, FiniteSets, TLC
 
 CONSTANTS MaxReqs,        \* requests pipelined on the connection
-          Classes         \* request classes to use
+          Classes,        \* request classes to use
+          SD,             \* subset of BOOLEAN: server states (TRUE = graceful shutdown) to explore
+          MaxReqsSD       \* requests pipelined on a connection served during graceful shutdown
 
 \* every method with every body framing: "<METHOD>:<none|cl|chunked>"
 Methods  == {"GET", "HEAD", "POST", "OPTIONS", "DELETE"}
@@ -49,15 +56,20 @@ Statuses(c) == CASE Normal(c) -> {200}
 \* index of the first request after which nothing may be answered (0: none)
 RECURSIVE FirstEnd(_, _)
 FirstEnd(cs, k) == IF k > Len(cs) THEN 0 ELSE IF EndsPersistence(cs[k]) THEN k ELSE FirstEnd(cs, k + 1)
+\* during graceful shutdown the first request answered is the last one
+FirstEndSD(cs, sd) == IF sd THEN 1 ELSE FirstEnd(cs, 1)
+\* responses that must announce the close (HTTP/1.1 responses relayed from the backend)
+MustAnnounce(c, sd) == sd /\ Normal(c) /\ c # "http10"
 
 \* obs: [resps: Seq of [st, id (0 = none), interim (number of 100s before it)], closed, smuggled, garbage]
-POK(cs, obs) ==
-    LET k == Len(obs.resps) fe == FirstEnd(cs, 1) IN
+POK(cs, sd, obs) ==
+    LET k == Len(obs.resps) fe == FirstEndSD(cs, sd) IN
     /\ k <= Len(cs)
     /\ \A j \in 1..k : /\ (AnyS \in Statuses(cs[j]) \/ obs.resps[j].st \in Statuses(cs[j]))
                        /\ (Normal(cs[j]) => obs.resps[j].id = j)
                        /\ (obs.resps[j].id # 0 => obs.resps[j].id = j)
                        /\ (obs.resps[j].interim > 0 => Interim(cs[j]))
+                       /\ (MustAnnounce(cs[j], sd) => obs.resps[j].announced)
     /\ (fe # 0 => k <= fe /\ obs.closed)
     /\ (k < Len(cs) => obs.closed)
     /\ ~obs.smuggled /\ ~obs.garbage
@@ -65,10 +77,12 @@ POK(cs, obs) ==
 (* ------------------------------ Layer M --------------------------------- *)
 VARIABLES cs,        \* the pipelined request classes
           i,         \* next request to read
-          resps, closed
-vars == <<cs, i, resps, closed>>
+          resps, closed,
+          sd         \* the server is in graceful-shutdown state while the connection is served
+vars == <<cs, i, resps, closed, sd>>
 
-Init == /\ cs \in UNION {[1..n -> Classes] : n \in 1..MaxReqs}
+Init == /\ sd \in SD
+        /\ cs \in UNION {[1..n -> Classes] : n \in 1..(IF sd THEN MaxReqsSD ELSE MaxReqs)}
         /\ i = 1 /\ resps = <<>> /\ closed = FALSE
 
 \* Early backend answers race with the proxy still writing the body: the client gets the backend's
@@ -85,12 +99,14 @@ ContinueM(c) == IF EarlyC(c) THEN BOOLEAN
 
 Serve == /\ ~closed /\ i <= Len(cs)
          /\ \E st \in StatusM(cs[i]), im \in InterimM(cs[i]) :
-              resps' = Append(resps, [st |-> st, id |-> IF st \in {200, 403} THEN i ELSE 0, interim |-> im])
+              resps' = Append(resps, [st |-> st, id |-> IF st \in {200, 403} THEN i ELSE 0, interim |-> im,
+                                      \* response.WriteHeader: Connection: close on HTTP/1.1 while shutting down
+                                      announced |-> sd /\ cs[i] # "http10"])
          /\ i' = i + 1
-         /\ \E cont \in ContinueM(cs[i]) : closed' = ~cont
-         /\ UNCHANGED cs
+         /\ \E cont \in ContinueM(cs[i]) : closed' = (sd \/ ~cont)
+         /\ UNCHANGED <<cs, sd>>
 Next == Serve
 Done == closed \/ i > Len(cs)
 ObsM == [resps |-> resps, closed |-> closed, smuggled |-> FALSE, garbage |-> FALSE]
-MSatisfiesP == Done => POK(cs, ObsM)
+MSatisfiesP == Done => POK(cs, sd, ObsM)
 ===========================================================================
